@@ -708,6 +708,7 @@ pub fn run_real(prop: &str, tier: &str, seed: u64, threads: usize, known: &Known
         "C13" => run_c13_conformance(tier, seed, threads),
         "C18" => run_c18_real_env(tier),
         "C05" | "C15" => run_real_docs(prop, doc_class(prop), threads),
+        "C14" => run_real_docs(prop, doc_class(prop), 1),
         _ => RealReport::default(),
     }
 }
@@ -1239,6 +1240,9 @@ pub struct DocCase {
     /// variables scrut itself was started with (they reach every shell it starts): POSIXLY_CORRECT ...
     #[serde(default)]
     pub env: BTreeMap<String, String>,
+    /// per-test `timeout` in milliseconds (index of the test case -> limit)
+    #[serde(default)]
+    pub timeout_ms: BTreeMap<usize, u64>,
 }
 
 fn check_doc_case(c: &DocCase) -> Result<Option<String>, String> {
@@ -1253,6 +1257,9 @@ fn check_doc_case(c: &DocCase) -> Result<Option<String>, String> {
         }
         if let Some(k) = c.skip_code {
             config.skip_document_code = Some(k);
+        }
+        if let Some(ms) = c.timeout_ms.get(&i) {
+            config.timeout = Some(std::time::Duration::from_millis(*ms));
         }
         let mut expectations = vec![];
         for line in exps {
@@ -1353,8 +1360,8 @@ fn doc_cases(prop: &str) -> Vec<DocCase> {
             for (k, v) in [("POSIXLY_CORRECT", "1"), ("SHELLOPTS", "posix"), ("BASH_ENV", "/nonexistent/bashrc"), ("BASH_COMPAT", "4.4")] {
                 let tests = vec![t("echo one", &["one"], None), t("(exit 1)", &[], Some(1)), t("echo three; (exit 3)", &["three"], Some(3)), t("echo four", &["four"], None)];
                 let env: BTreeMap<String, String> = [(k.to_string(), v.to_string())].into_iter().collect();
-                out.push(DocCase { real_doc: true, property: "C05".into(), script_mode: false, skip_code: None, tests: tests.clone(), expect: "codes:0,1,3,0".into(), env: env.clone() });
-                out.push(DocCase { real_doc: true, property: "C05".into(), script_mode: true, skip_code: None, tests, expect: "codes:0,1,3,0".into(), env });
+                out.push(DocCase { real_doc: true, property: "C05".into(), script_mode: false, skip_code: None, tests: tests.clone(), expect: "codes:0,1,3,0".into(), env: env.clone(), timeout_ms: BTreeMap::new() });
+                out.push(DocCase { real_doc: true, property: "C05".into(), script_mode: true, skip_code: None, tests, expect: "codes:0,1,3,0".into(), env, timeout_ms: BTreeMap::new() });
             }
             // a command ended by a signal has no exit code: it never passes, nor does what follows
             for sig in ["TERM", "HUP", "INT", "QUIT", "KILL", "SEGV", "ABRT", "USR1", "USR2", "PIPE", "ALRM", "BUS", "FPE"] {
@@ -1374,7 +1381,7 @@ fn doc_cases(prop: &str) -> Vec<DocCase> {
                         tests.push(killed);
                         tests.push(t("true", &[], None));
                         tests.push(t("echo last", &["last"], None));
-                        out.push(DocCase { real_doc: true, property: "C05".into(), script_mode, skip_code: None, tests, expect: format!("not-success:{}", pos), env: BTreeMap::new() });
+                        out.push(DocCase { real_doc: true, property: "C05".into(), script_mode, skip_code: None, tests, expect: format!("not-success:{}", pos), env: BTreeMap::new(), timeout_ms: BTreeMap::new() });
                     }
                 }
             }
@@ -1388,7 +1395,27 @@ fn doc_cases(prop: &str) -> Vec<DocCase> {
                 ("set -eu; mkdir \"$PWD/gone3\"; cd \"$PWD/gone3\"", "cd ..; rmdir gone3; unset OLDPWD"),
             ] {
                 let tests = vec![t(a, &[], None), t(b, &[], None), t("echo in3", &["in3"], None), t("echo in4", &["in4"], None)];
-                out.push(DocCase { real_doc: true, property: "C12".into(), script_mode: false, skip_code: None, tests, expect: "codes:0,0,0,0".into(), env: BTreeMap::new() });
+                out.push(DocCase { real_doc: true, property: "C12".into(), script_mode: false, skip_code: None, tests, expect: "codes:0,0,0,0".into(), env: BTreeMap::new(), timeout_ms: BTreeMap::new() });
+            }
+        }
+        "C14" => {
+            // a command that ends at once is not reported as timed out because of what it leaves
+            // running: a background job whose own streams point elsewhere holds none of the pipes
+            // scrut reads (real time, with wide margins: the limit is 4 s, the job lives 6 s, the
+            // command itself takes milliseconds). These cases run ONE AT A TIME: with several
+            // executors forking in one process a shell of one case can inherit the pipes of another
+            // (pipe + fcntl are not atomic) - and its background job then holds them; scrut itself
+            // is single-threaded
+            for bg in [
+                "sleep 6 >/dev/null 2>&1 & echo started",
+                "(sleep 6 &) >/dev/null 2>&1; echo started",
+                "nohup sleep 6 >/dev/null 2>&1 </dev/null & echo started",
+                "sleep 6 >/dev/null 2>&1 </dev/null & disown; echo started",
+                "exec 7>/dev/null; sleep 6 >&7 2>&7 & echo started",
+            ] {
+                let tests = vec![t(bg, &["started"], None), t("echo after", &["after"], None)];
+                let timeout_ms: BTreeMap<usize, u64> = [(0usize, 4000u64)].into_iter().collect();
+                out.push(DocCase { real_doc: true, property: "C14".into(), script_mode: false, skip_code: None, tests, expect: "codes:0,0".into(), env: BTreeMap::new(), timeout_ms });
             }
         }
         "C15" => {
@@ -1402,7 +1429,7 @@ fn doc_cases(prop: &str) -> Vec<DocCase> {
                     tests.push(t("exit 80", &[], None));
                     tests.push(t("echo after", &["after"], None));
                     let env: BTreeMap<String, String> = [(k.to_string(), v.to_string())].into_iter().collect();
-                    out.push(DocCase { real_doc: true, property: "C15".into(), script_mode: false, skip_code: None, tests, expect: "skipped".into(), env });
+                    out.push(DocCase { real_doc: true, property: "C15".into(), script_mode: false, skip_code: None, tests, expect: "skipped".into(), env, timeout_ms: BTreeMap::new() });
                 }
             }
             // whatever shell options are in force, the skip code skips - and only the skip code does
@@ -1423,12 +1450,12 @@ fn doc_cases(prop: &str) -> Vec<DocCase> {
                             }
                             tests.push(t(&exit_form, &[], None));
                             tests.push(t("echo after", &["after"], None));
-                            out.push(DocCase { real_doc: true, property: "C15".into(), script_mode, skip_code: custom, tests, expect: "skipped".into(), env: BTreeMap::new() });
+                            out.push(DocCase { real_doc: true, property: "C15".into(), script_mode, skip_code: custom, tests, expect: "skipped".into(), env: BTreeMap::new(), timeout_ms: BTreeMap::new() });
                         }
                         // the other half: the default code does not skip when a custom one is set
                         if custom.is_some() && !script_mode && !p.contains("set -e") && !p.contains("errexit") {
                             let tests = vec![t(&format!("{}{}(exit 80)", p, sep), &[], Some(80)), t("true", &[], None)];
-                            out.push(DocCase { real_doc: true, property: "C15".into(), script_mode, skip_code: custom, tests, expect: "codes:80,0".into(), env: BTreeMap::new() });
+                            out.push(DocCase { real_doc: true, property: "C15".into(), script_mode, skip_code: custom, tests, expect: "codes:80,0".into(), env: BTreeMap::new(), timeout_ms: BTreeMap::new() });
                         }
                     }
                 }
@@ -1481,7 +1508,7 @@ fn run_real_docs(prop: &str, class: &str, threads: usize) -> RealReport {
                     continue;
                 }
                 if !(matches!(check_doc_case(c), Ok(Some(_))) && matches!(check_doc_case(c), Ok(Some(_)))) {
-                    rep.harness_errors.push("[real doc] failure does not reproduce".into());
+                    rep.harness_errors.push(format!("[real doc] failure does not reproduce: {}", detail.chars().take(300).collect::<String>()));
                     continue;
                 }
                 println!("vsim: {}/{} - {}", prop, class, detail);
@@ -1507,6 +1534,7 @@ pub fn doc_class(prop: &str) -> &'static str {
     match prop {
         "C05" => "passed-without-exit-code-real",
         "C12" => "state-differs-real",
+        "C14" => "timeout-reported-for-finished-command-real",
         _ => "skip-code-not-honoured-real",
     }
 }
